@@ -67,6 +67,12 @@ func runHistory(t *rapid.T, isValue bool) {
 			late++
 			lib.Ev.Class("history:subscriber joining mid-history")
 		}
+		if i > 0 && r.NumSubs() >= 2 && rapid.IntRange(0, 9).Draw(t, "cancelSub") == 0 {
+			// a subscriber leaves: the others go on receiving one event per successful write
+			if r.CancelSub(rapid.IntRange(0, r.NumSubs()-2).Draw(t, "which")) {
+				lib.Ev.Class("history:a subscriber cancels mid-history")
+			}
+		}
 		op := rlib.GenOp(t, r, alphabet, false)
 		if rapid.IntRange(0, 5).Draw(t, "sameValue") == 0 && op.Val != nil {
 			// write the value that is already there (equivalence suppression / duplicate delivery)
